@@ -357,7 +357,17 @@ def r6(ctx):
     ctx.check("expand_enumerations:both-directions", sorted(sts) == ["xlateTable[name] = value", "xlateTable[value] = name"], where(prog.module(PM), f), "the translation table must map name->number and number->name")
 
 
-def _strip_loop(ctx, k, f, neg):
+def _lstrip_idiom(f):
+    """data = data.lstrip(b'\\x00') or <one zero octet>: the library spelling of "drop leading zero octets, keep one" """
+    for s in walk_shallow(f):
+        if isinstance(s, ast.Assign) and norm(s.targets[0]) == "data" and isinstance(s.value, ast.BoolOp) and isinstance(s.value.op, ast.Or) and len(s.value.values) == 2:
+            a, b = s.value.values
+            if norm(a).replace('"', "'") in ("data.lstrip(b'\\x00')", "data.lstrip(bytes(1))") and norm(b).replace('"', "'") in ("bytearray(1)", "bytes(1)", "b'\\x00'", "bytearray(b'\\x00')", "bytearray([0])"):
+                return s
+    return None
+
+
+def _strip_loop(ctx, k, f, neg, extra=None):
     """which (data[0], data[1]) pairs let the strip loop delete the leading octet?"""
     prog = ctx.prog
     ev = Evaluator(prog, k.module, k)
@@ -374,6 +384,7 @@ def _strip_loop(ctx, k, f, neg):
             for d0 in (0, 1, 0x7F, 0x80, 0xFF):
                 for d1 in (0, 0x7F, 0x80, 0xFF):
                     env = {"len(data)": ln, "data[0]": d0, "data[1]": d1}
+                    env.update(extra or {})
                     if ev.eval3(lp.test, env) is False:
                         continue
                     if reaches(paths, dels[0], ev, env):
@@ -394,15 +405,19 @@ def r7(ctx):
         if ok:
             lp, acc, _ = list(res.values())[0]
             ok = acc == {(ln, d0, d1) for ln, d0, d1 in grid3 if ln > 1 and d0 == 0}
+        elif not res and _lstrip_idiom(k.methods["encode"]) is not None:
+            ok = True
         ctx.check("%s.encode:shortest-form" % name, ok, where(m, k.methods["encode"]), "leading zero octets must be dropped while more than one octet remains, nothing else")
     k = prog.cls(PM, "Integer")
     enc = k.methods["encode"]
     ev = Evaluator(prog, m, k)
-    res = _strip_loop(ctx, k, enc, True)
     got = {}
-    for lp, acc, fa in res.values():
-        sign = "neg" if ev.may_hold(fa, {"self.value": -5}) and not ev.may_hold(fa, {"self.value": 5}) else "pos" if ev.may_hold(fa, {"self.value": 5}) and not ev.may_hold(fa, {"self.value": -5}) else "?"
-        got[sign] = acc
+    for sign, v in (("neg", -5), ("pos", 5)):
+        # the loops this sign can reach, analysed with the sign known (one loop per sign, or one loop parametrised by it)
+        res = _strip_loop(ctx, k, enc, True, {"self.value": v})
+        accs = [acc for lp, acc, fa in res.values() if ev.may_hold(fa, {"self.value": v})]
+        if len(accs) == 1:
+            got[sign] = accs[0]
     want_neg = {(ln, d0, d1) for ln, d0, d1 in grid3 if ln > 1 and d0 == 0xFF and d1 >= 0x80}
     want_pos = {(ln, d0, d1) for ln, d0, d1 in grid3 if ln > 1 and d0 == 0 and d1 < 0x80}
     ctx.check("Integer.encode:shortest-form-negative", got.get("neg") == want_neg, where(m, enc), "for negative values a leading 0xFF is dropped only while the next octet keeps the sign bit set")
